@@ -433,25 +433,34 @@ def loop_witnesses(body, header, blocks):
                         if eof is None or _returns_to(body, eof, header, blocks):
                             why = "the Eof event does not leave the loop (the reader returns Eof forever)"
             out.append(("reader", s, why is None, why or "reader advances on every call; Err and Eof leave the loop"))
-    # counter witness
+    # counter witness: `i = i + c` (checked or unchecked) with c > 0 on a local initialised outside the loop
     for bb in sorted(blocks):
-        t = body.blocks[bb]["term"]
-        if t["k"] == "assert" and t["msg"].startswith("Overflow(Add"):
-            s = mir.Site(body, bb, None)
-            c = strip(term_of(body, t["cond"]))
-            if c[0] == "proj" and c[1][0] == "binop" and _const_int(c[1][3]) and _const_int(c[1][3]) > 0:
-                l = strip(c[1][2])
-                if l[0] == "local" and not _initialised_only_inside(body, l[1], blocks):
-                    # exit tests must depend on the counter
-                    dep = False
-                    for (a, b) in [(a, b) for a in blocks for b in body.succs(a) if b not in blocks]:
-                        ta = body.blocks[a]["term"]
-                        if ta["k"] == "switch":
-                            at = body.origins(ta["op"], transparent=lambda tt: True)
-                            if any(x[0] == "op" and x[1].bb == _def_block_of_tuple(body, t) for x in at):
-                                dep = True
-                    out.append(("counter", s, dep, "strictly increasing counter _%d feeds the exit test (fresh candidate on every iteration)" % l[1]
-                                if dep else "counter does not influence the loop's exit test"))
+        for si, st in enumerate(body.blocks[bb]["stmts"]):
+            if st["k"] != "assign" or st["rv"]["k"] != "binop" or st["rv"]["op"] not in ("Add", "AddWithOverflow", "AddUnchecked"):
+                continue
+            k = _const_int(term_of(body, st["rv"]["r"]))
+            lp = mir.op_place(st["rv"]["l"])
+            if not k or k <= 0 or lp is None or lp["p"]:
+                continue
+            l = lp["l"]
+            if _initialised_only_inside(body, l, blocks) or not body.locals[l]["ty"].get("prim", "").lstrip("ui").replace("size", "64").isdigit():
+                continue
+            # the sum must be stored back into the same local inside the loop
+            tmp = st["place"]["l"]
+            back = any(d.bb in blocks and d.si is not None and d.node["k"] == "assign" and d.node["rv"]["k"] == "use" and
+                       mir.op_place(d.node["rv"]["op"]) is not None and mir.op_place(d.node["rv"]["op"])["l"] == tmp for d in body.defs().get(l, [])) or tmp == l
+            if not back:
+                continue
+            s = mir.Site(body, bb, si)
+            dep = False
+            for (a, b) in [(a, b) for a in blocks for b in body.succs(a) if b not in blocks]:
+                ta = body.blocks[a]["term"]
+                if ta["k"] == "switch":
+                    at = body.origins(ta["op"], transparent=lambda tt: True)
+                    if any(x[0] == "op" and x[1] == s for x in at):
+                        dep = True
+            out.append(("counter", mir.Site(body, bb, None), dep, "strictly increasing counter _%d feeds the exit test (fresh candidate on every iteration)" % l
+                        if dep else "counter does not influence the loop's exit test"))
     return out
 
 
